@@ -130,7 +130,9 @@ HolderCommitRefused(s, n, c) ==
 ValidateHolder(s, n, c, sig) ==
   IF s.phase = "stub" THEN Err(s)
   ELSE IF HolderCommitRefused(s, n, c) THEN Err(s)
-  ELSE IF sig # "good" THEN Err(s)        \* check_holder_tx_signatures (commit + every HTLC)
+  \* check_holder_tx_signatures (commitment + every HTLC): "badcommit" = signature made for other
+  \* content, "badhtlc" = wrong HTLC signature, "shorthtlc" = fewer HTLC signatures than HTLCs
+  ELSE IF sig # "good" THEN Err(s)
   ELSE IF n = s.nh THEN Ok([s EXCEPT !.nextH = c])
   ELSE Ok(s)                              \* retry of current / look-ahead: accepted, no change
 
@@ -366,7 +368,7 @@ Requests(N, HC, CC, TT) ==
   \cup {[op |-> "GetSecretOrNone", n |-> n] : n \in 0..N}
   \cup {[op |-> "CheckFutureSecret", n |-> n, good |-> b] : n \in {0, N}, b \in BOOLEAN}
   \cup {[op |-> "ValidateHolder", n |-> n, c |-> c, sig |-> sg] :
-            n \in 0..N + 2, c \in HC, sg \in {"good", "badcommit", "badhtlc"}}
+            n \in 0..N + 2, c \in HC, sg \in {"good", "badcommit", "badhtlc", "shorthtlc"}}
   \cup {[op |-> "Activate"]}
   \cup {[op |-> "Revoke", n |-> n] : n \in 0..N + 1}
   \cup {[op |-> "SignHolder", n |-> n] : n \in 0..N + 1}
